@@ -3,7 +3,7 @@ CONSTANTS
   MaxN = 4
   NameSet = {"a"}
   Prefixes = {"x"}
-  Uris = {"u", "u/"}
+  Uris = {"u", ""}
   Texts = {}
   Keys = {}
   MaxLevel = 99
